@@ -58,6 +58,10 @@ fn tl_pool() -> Vec<(String, TlS)> {
     // keyframe-less timelines: the state still has a timeline (is_ended, pause/resume behave accordingly)
     v.push(make(Some(8), None, None, false, None, &[])); // for 2s
     v.push(make(Some(0), Some(1), None, false, None, &[])); // 1s after 250ms
+    // same timing as pool[0] and a property in common with it (members of one merged list that are in
+    // lockstep: the later member must still win), and another same-timing member with a different property
+    v.push(make(Some(0), None, None, false, None, &[(1, 1)])); // 1s to {a:2.0,k:7}
+    v.push(make(Some(0), None, None, false, None, &[(1, 2)])); // 1s to {k:3,}
     v.into_iter().map(|s| (s.render(&s.canonical_order()), s)).collect()
 }
 
@@ -85,6 +89,8 @@ fn arm_options(thorough: bool) -> Vec<ArmS> {
     tls.push((vec![pool[3].clone(), pool[2].clone()], true));
     tls.push((vec![pool[1].clone()], true)); // bracketed single
     tls.push((vec![pool[8].clone(), pool[9].clone()], true)); // merged list of keyframe-less timelines
+    tls.push((vec![pool[10].clone(), pool[0].clone()], true)); // two members in lockstep sharing property a
+    tls.push((vec![pool[0].clone(), pool[5].clone(), pool[11].clone()], true)); // lockstep members around a differently timed one
     if thorough {
         tls.push((vec![pool[4].clone(), pool[0].clone(), pool[3].clone()], true));
         tls.push((vec![pool[6].clone(), pool[7].clone()], true));
